@@ -2274,7 +2274,8 @@ def _memo_result_immutable(fn):
             if e.id in params:
                 return True
             binds = [n for n in ast.walk(fn) if isinstance(n, ast.Assign) and any(isinstance(t, ast.Name) and t.id == e.id for t in n.targets)]
-            others = [n for n in ast.walk(fn) if isinstance(n, ast.Name) and n.id == e.id and isinstance(n.ctx, ast.Store)]
+            comp_scope = {id(y) for c in ast.walk(fn) if isinstance(c, ast.comprehension) for y in ast.walk(c.target)}
+            others = [n for n in ast.walk(fn) if isinstance(n, ast.Name) and n.id == e.id and isinstance(n.ctx, ast.Store) and id(n) not in comp_scope]
             return bool(binds) and len(binds) == len(others) and depth < 4 and all(imm(b.value, depth + 1) for b in binds)
         if isinstance(e, ast.Attribute):
             return e.attr in ('ndim', 'size', 'shape', 'dtype', 'itemsize')
